@@ -312,3 +312,72 @@ Section OpenCfgProofs.
     exfalso. apply H. eapply open_cfg_ok_valid_trailer; eauto.
   Qed.
 End OpenCfgProofs.
+
+(** *** seek, then read to the end of the chunk *)
+Lemma pages_len_sumN l : pages_len l = sumN l.
+Proof. induction l as [|[h b] r IH]; cbn; [reflexivity|now rewrite IH]. Qed.
+
+Lemma sumN_app a b : sumN (a ++ b) = sumN a + sumN b.
+Proof. induction a as [|[h x] r IH]; cbn; [reflexivity|rewrite IH; lia]. Qed.
+
+(* [chunk_early_end_reported] without [consumed <= avail]: the stream may be
+   positioned beyond the end of the source *)
+Lemma chunk_early_end_reported_from : forall pages size avail consumed,
+  consumed + sumN pages = size -> 0 < sumN pages -> avail < size ->
+  snd (read_pages true size avail consumed pages) = PUnexpected.
+Proof.
+  intros pages size avail consumed Hs Hp Ha.
+  destruct (N.le_gt_cases consumed avail) as [Hc|Hc].
+  - apply chunk_early_end_reported; assumption.
+  - destruct pages as [|[h b] r]; [cbn in Hp; lia|].
+    cbn [read_pages]. assert (E : avail <=? consumed = true) by lia. rewrite E. cbn [snd].
+    unfold end_of_chunk. cbn [sumN] in *. assert (E2 : consumed <? size = true) by lia. now rewrite E2.
+Qed.
+
+(* a seek followed by a read to the end of the chunk over a source that ends
+   before the chunk does never ends with a plain io.EOF, with or without
+   offset index, wherever the source ends (inside a skipped page or later) *)
+Theorem seek_early_end_reported : forall noindex size avail dict skipped rest,
+  sumN dict + sumN skipped + sumN rest = size -> 0 < sumN rest -> avail < size ->
+  snd (seek_read_pages true noindex size avail dict skipped rest) = PUnexpected.
+Proof.
+  intros noindex size avail dict skipped rest Hs Hr Ha. unfold seek_read_pages.
+  destruct noindex; rewrite ?(pages_len_sumN dict), ?(pages_len_sumN skipped).
+  - pose proof (chunk_early_end_reported_from (skipped ++ rest) size avail (sumN dict)) as H.
+    rewrite sumN_app in H.
+    destruct (read_pages true size avail (sumN dict) (skipped ++ rest)) as [k e]. cbn [snd] in *.
+    apply H; lia.
+  - apply chunk_early_end_reported_from; lia.
+Qed.
+
+Lemma read_pages_app_complete : forall cur a b size avail consumed,
+  consumed + sumN a <= avail -> (forall h x, In (h, x) a -> 0 < h) ->
+  read_pages cur size avail consumed (a ++ b) =
+  (let '(k, e) := read_pages cur size avail (consumed + sumN a) b in ((length a + k)%nat, e)).
+Proof.
+  induction a as [|[h x] r IH]; intros b size avail consumed Ha Hp; cbn [app sumN length].
+  - rewrite N.add_0_r. destruct (read_pages cur size avail consumed b). reflexivity.
+  - cbn [read_pages]. cbn [sumN] in Ha.
+    assert (0 < h) by (apply (Hp h x); left; reflexivity).
+    destruct (avail <=? consumed) eqn:E1; [lia|].
+    destruct (avail <? consumed + h) eqn:E0; [lia|].
+    destruct ((avail =? consumed + h) && (0 <? x)) eqn:E3; [lia|].
+    destruct (consumed + h + x <=? avail) eqn:E2; [|lia].
+    rewrite IH; [|lia|intros h' x' Hin; apply (Hp h' x'); right; assumption].
+    replace (consumed + h + x + sumN r) with (consumed + (h + x + sumN r)) by lia.
+    destruct (read_pages cur size avail (consumed + (h + x + sumN r)) b). reflexivity.
+Qed.
+
+(* over a complete source exactly the pages from the row of the seek on are returned *)
+Theorem seek_complete_read : forall cur noindex size avail dict skipped rest,
+  sumN dict + sumN skipped + sumN rest = size -> size <= avail ->
+  (forall h b, In (h, b) (skipped ++ rest) -> 0 < h) ->
+  seek_read_pages cur noindex size avail dict skipped rest = (length rest, PEnd).
+Proof.
+  intros cur noindex size avail dict skipped rest Hs Ha Hp. unfold seek_read_pages.
+  destruct noindex; rewrite ?(pages_len_sumN dict), ?(pages_len_sumN skipped).
+  - rewrite read_pages_app_complete; [|lia|intros h b Hin; apply (Hp h b), in_or_app; left; assumption].
+    rewrite (chunk_complete_read cur rest size avail (sumN dict + sumN skipped));
+      [f_equal; lia|lia|lia|intros h b Hin; apply (Hp h b), in_or_app; right; assumption].
+  - apply chunk_complete_read; [lia|lia|intros h b Hin; apply (Hp h b), in_or_app; right; assumption].
+Qed.
